@@ -36,6 +36,7 @@ def normalise(raw_events):
         taken = set()
         local2b = {e["local"]: e["b"] for e in rnd if e["ev"] == "BackendConn"}
         prepmap = {}
+        anshash = {}
         keylist = {}
         pre_ord = {}  # scenario clients forward nothing before ScenarioStart
 
@@ -131,6 +132,8 @@ def normalise(raw_events):
                 r = prepmap.pop((e["b"], e["bstream"])) if isprep else 0
                 out.append({"ev": "BadFrame", "r": r, "b": e["b"], "bs": e["bstream"], "prep": isprep})
             elif ev == "BackendReply":
+                if e.get("h") and e.get("t"):
+                    anshash.setdefault(e["t"], set()).add(e["h"])
                 if (e["b"], e["bstream"]) in taken:
                     taken.discard((e["b"], e["bstream"]))
                     out.append({"ev": "Answer", "b": e["b"], "bs": e["bstream"], "o": e["o"]})
@@ -143,6 +146,10 @@ def normalise(raw_events):
             elif ev == "ClientRecv":
                 if e["kind"] in ("ready", "supported", "event"):
                     continue
+                hs = anshash.get(e.get("t") or "")
+                if hs and e.get("h") and e["h"] not in hs and e["kind"] not in ("nohosts", "connclosed"):
+                    # the frame names this request's token but is, byte for byte, none of the answers a backend gave to it
+                    out.append({"ev": "Altered", "c": e["c"], "s": e["stream"], "t": e["t"], "tr": tok2r.get(e["t"], 0)})
                 out.append({"ev": "Reply", "c": e["c"], "s": e["stream"], "kind": KIND_MAP.get(e["kind"], e["kind"]),
                             "t": e.get("t", ""), "tr": tok2r.get(e.get("t", ""), 0),
                             "node": hostmap.get(e.get("node", ""), e.get("node", ""))})
